@@ -122,8 +122,19 @@ func genC17(r *rand.Rand, n int, emit func(string)) {
 			emit(proto.Line("process", M{"ns": ns, "req": proto.Hex(b), "uri": uri, "label": plabel}))
 			continue
 		}
-		switch r.Intn(14) {
+		switch r.Intn(16) {
 		case 0, 1:
+		case 14: // the type member of the initial state says something else (canonical otherwise)
+			mod := deepCopy(req).(map[string]interface{})
+			mod["type"] = pick(r, []string{"breate", "Create", "update", "x", "creat", "create "})
+			did = ns + ":" + suffix + ":" + opb.B64E(opb.Canon(mod))
+			label = "initial-state-other-type-value"
+		case 15: // single-character change inside the text of the type member's value
+			at := strings.Index(string(canon), `"type":"create"`) + len(`"type":"c`)
+			mod := append([]byte{}, canon...)
+			mod[at+r.Intn(5)] = "bdfghijklmnopqsuvwxyzABCXYZ019"[r.Intn(30)] // none of them occurs in "reate"
+			did = ns + ":" + suffix + ":" + opb.B64E(mod)
+			label = "single-char-change"
 		case 2: // single-character change anywhere in the DID
 			k := r.Intn(len(did))
 			const al = "ABCDEFGHIJKLMNOPQRSTUVWXYZabcdefghijklmnopqrstuvwxyz0123456789-_:"
